@@ -947,7 +947,14 @@ impl VM {
             return Ok(());
         }
         Err(Error::new(
-            format!("Invalid selector index: {:?} target: {:?}", right, left).into(),
+            // Only name the type of the target. Its contents may be sensitive,
+            // e.g. the values of every environment variable for `env.MISSING`.
+            format!(
+                "Invalid selector index: {:?} target: {}",
+                right,
+                left.type_name()
+            )
+            .into(),
             pos,
         ))
     }
